@@ -13,8 +13,8 @@ def queries():
     for kind, nm in ((1, 'mutex'), (2, 'spin')):
         for nthr, gens, rounds, quick in ((1, 2, 12, True), (2, 2, 30, True), (3, 2, 48, False), (2, 3, 44, False)):
             qs.append(Query('barrier_%s_t%d_g%d' % (nm, nthr, gens), SRC, 'h_barrier',
-                            'ThreadBarrier%s: %d threads crossing %d consecutive generations with a counting action; every interleaving at synchronisation%s granularity (%d rounds, checked to suffice)' % (nm.capitalize(), nthr, gens, ' and atomic-operation' if kind == 2 else '', rounds),
-                            defs=['BARRIER=%d' % kind, 'NTHR=%d' % nthr, 'GENS=%d' % gens], conc=True, nt=nthr + 1, rounds=rounds, yield_atomics=(kind == 2),
+                            'ThreadBarrier%s: %d threads crossing %d consecutive generations with a counting action; every interleaving at synchronisation%s granularity (%d rounds, checked to suffice)' % (nm.capitalize(), nthr, gens, ' and atomic-operation' if kind == 2 else '', rounds + (2 * gens if kind == 2 else 0)),
+                            defs=['BARRIER=%d' % kind, 'NTHR=%d' % nthr, 'GENS=%d' % gens], conc=True, nt=nthr + 1, rounds=rounds + (2 * gens if kind == 2 else 0), yield_atomics=(kind == 2),
                             tiers=('quick', 'thorough') if quick else ('thorough',), timeout=3600 if quick else 14400, unwind=4, max_unwind=80, weight=nthr * gens, solver=SOLVER))
     return qs
 
